@@ -130,6 +130,19 @@ Example ex_time_points :
   = [ONE; 500000000000000000; 500000000000000000; 100000000000000000; 100000000000000000;
      ONE; ONE; 999999999999999999; 999999999999999999; ONE].
 Proof. vm_compute. reflexivity. Qed.
+(* C07_time_spec applied: 250 lies in the second window only; 350 in none *)
+Example ex_time_spec_instance :
+  disc_time ex_windows 250 = 100000000000000000 /\ disc_time ex_windows 350 = ONE.
+Proof.
+  destruct (C07_time_spec ex_windows 250 ex_time_valid) as [Hin _].
+  destruct (C07_time_spec ex_windows 350 ex_time_valid) as [_ Hout].
+  split.
+  - apply (Hin (mkPromoT 200 300 100000000000000000)).
+    + right. left. reflexivity.
+    + cbn [pt_start pt_end]. lia.
+  - apply Hout. intros (w & Hw & Ht).
+    repeat (destruct Hw as [<- | Hw]; [cbn [pt_start pt_end] in Ht; lia |]). exact Hw.
+Qed.
 (* the hypothesis matters: with overlapping windows the first one wins *)
 Example ex_time_overlap_first_wins :
   let l := [mkPromoT 100 300 1; mkPromoT 200 400 2] in
@@ -273,6 +286,16 @@ Example ex_vol_points :
   = [ONE; 900000000000000000; 900000000000000000; 400000000000000000; 400000000000000000;
      100000000000000000; 100000000000000000].
 Proof. vm_compute. reflexivity. Qed.
+(* C07_volume_spec applied: for v = 4 the largest index with vol_i <= 4 is 2 (the second 3) *)
+Example ex_vol_spec_instance : disc_vol ex_tiers 4 = 400000000000000000.
+Proof.
+  destruct (C07_volume_spec ex_tiers 4 ex_vol_valid) as [_ H].
+  apply (H 2%nat (mkPromoV 0 0)).
+  - cbn [length ex_tiers]. lia.
+  - cbn [nth ex_tiers pv_vol]. lia.
+  - intros j Hj. cbn [length ex_tiers] in Hj. assert (j = 3%nat) as -> by lia.
+    cbn [nth ex_tiers pv_vol]. lia.
+Qed.
 (* the hypothesis matters: descending volumes give the tier before the first
    one above v, not the last one at or below v *)
 Example ex_vol_descending :
@@ -512,6 +535,14 @@ Example ex_fees :
   /\ get_price (mkPricing 1 ex_windows ex_tiers) 250 5 = 1  (* 0.01 -> floor 1 *)
   /\ get_price (mkPricing 0 [] []) 0 0 = 1.
 Proof. vm_compute. repeat split. Qed.
+Example ex_no_discount_hyp :
+  disc_time (pr_time ex_pricing) 50 = ONE /\ disc_vol (pr_vol ex_pricing) 0 = ONE
+  /\ 1 <= pr_price ex_pricing /\ get_price ex_pricing 50 0 = pr_price ex_pricing.
+Proof. vm_compute. repeat split; discriminate. Qed.
+Example ex_fee_bounds_instance :     (* price 0 under the schema: fee exactly 1 = max(0,1) *)
+  schema_pricing (mkPricing 0 ex_windows ex_tiers) = true
+  /\ get_price (mkPricing 0 ex_windows ex_tiers) 150 3 = 1.
+Proof. vm_compute. split; reflexivity. Qed.
 Example ex_exact_floor_hyp :
   exact_num ex_pricing 450 5 mod PREC2 < PREC2 - HALF /\ exact_num ex_pricing 450 5 / PREC2 = 99.
 Proof. vm_compute. split; reflexivity. Qed.
